@@ -435,6 +435,16 @@ class TreeLikelihoodModel(CallableModel):
     def handle_parameter_changed(self, variable, index, event):
         pass
 
+    def cuda(self, device=None) -> None:
+        super().cuda(device)
+        self.weights = self.weights.cuda(device)
+        self.partials = [p if p is None else p.cuda(device) for p in self.partials]
+
+    def cpu(self) -> None:
+        super().cpu()
+        self.weights = self.weights.cpu()
+        self.partials = [p if p is None else p.cpu() for p in self.partials]
+
     def _sample_shape(self) -> torch.Size:
         return max([model.sample_shape for model in self._models.values()], key=len)
 
